@@ -168,6 +168,12 @@ def M3_copy(P, cut, D, W, h0, a0, b0, h1, a1, b1, shape):
     return 2
 
 
+def dry_runs():
+    yield 'M1_exact_select', dict(win='xxabyy', fresh=4, W=None, s0='ab', s1='b', s2='yy', shape=2)
+    yield 'M2_regex_select', dict(n=6, W=3, shape=3, h0=True, a0=4, b0=5, h1=True, a1=4, b1=6, h2=False, a2=0, b2=0)
+    yield 'M3_copy', dict(P='ab', cut=0, D='cd', W=None, h0=True, a0=1, b0=3, h1=False, a1=0, b1=0, shape=1)
+
+
 MANIFEST_ENTRY = {
     'level_text': 'Bounded symbolic verification of the real selection logic (searcher_string.search, '
                   'searcher_re.search, Expecter.do_search): for every window (<=6 chars, any code points), every '
